@@ -142,7 +142,8 @@ def check_labels(specs, res, dialect='new', via_list=True, max_objects=40):
                 if lab in shown:
                     res.bad('duplicate-label', '%s on %s' % (lab, mc.name))
                 shown.add(lab)
-        for mo in mc.all_objects():
+        # labels with late letters first (y, z, aa, ...), then the rest
+        for mo in sorted(mc.all_objects(), key=lambda o: (-(o.gen >= 23), o.id, o.gen)):
             if nobj >= max_objects:
                 break
             nobj += 1
@@ -191,10 +192,11 @@ class Labels(Stage):
         return 200 if tier == 'quick' else 14 * 1500
 
     def gen(self, d, tier):
-        deep = d.chance(0.12)
+        deep = d.chance(0.15)
         prof = dict(reuse=0.9, weights=dict(deep=80, message=12, delete=5, bind=3)) if deep else dict(
             reuse=0.75, weights=dict(delete=20, bind=12, message=42, server_event=14, deep=6, sync=6))
-        specs = histgen.history(d, nconn=d.int(1, 3), nmsg=d.int(60, 80) if deep else d.int(4, 36), profile=prof)
+        # one connection when driving an id deep, otherwise the messages spread and no id gets past letter m
+        specs = histgen.history(d, nconn=1 if deep else d.int(1, 3), nmsg=d.int(64, 90) if deep else d.int(4, 36), profile=prof)
         return dict(dialect=d.choice(['new', 'old']), specs=specs)
 
     def execute(self, case):
